@@ -442,3 +442,150 @@ func TestVerifC02Order(t *testing.T) {
 		vfstat.Sample(U, fmt.Sprint(ab), map[string]any{"owner": a, "next": b, "name": c, "covers": cover})
 	})
 }
+
+// TestVerifC02Exhaustive enumerates, instead of sampling, a bounded corner of the same space: every zone whose
+// owners are a subset (size <= 3) of {a, b, a.a, b.a, *.a} with every assignment of roles {A, delegation, secure
+// delegation, DNAME, CNAME}, every subset of its NSEC (and NSEC3) chain, every question name over the labels
+// {a, b, c} down to depth 2 plus the depth-3 names under existing owners, and the types A / DS / NS.
+func TestVerifC02Exhaustive(t *testing.T) {
+	defer vfstat.Flush()
+	vfstat.Quiet()
+	const U = "C02.exhaustive"
+	universe := []string{"a", "b", "a.a", "b.a", "*.a"}
+	roles := []string{"A", "NS", "NS+DS", "DNAME", "CNAME"}
+	var qnames []string
+	for _, l1 := range []string{"a", "b", "c"} {
+		qnames = append(qnames, l1+".example.")
+		for _, l2 := range []string{"a", "b", "c"} {
+			qnames = append(qnames, l2+"."+l1+".example.")
+		}
+	}
+	qnames = append(qnames, "example.", "c.a.a.example.", "a.b.a.example.", "c.c.a.example.")
+	zonesSeen, cases, accepted := 0, 0, 0
+	var build func(i int, picked []string, assign []string)
+	eval := func(z *vfmodel.Zone) {
+		zonesSeen++
+		nsec := z.NSECChain(3600)
+		nsec3 := z.NSEC3Chain(3600)
+		for mask := 1; mask < 1<<len(nsec); mask++ {
+			var set []dns.RR
+			for i, r := range nsec {
+				if mask&(1<<i) != 0 {
+					set = append(set, dns.Copy(r))
+				}
+			}
+			for _, qn := range qnames {
+				for _, qt := range []uint16{dns.TypeA, dns.TypeDS, dns.TypeNS} {
+					q := dns.Question{Name: qn, Qtype: qt, Qclass: dns.ClassINET}
+					msg := &dns.Msg{Question: []dns.Question{q}}
+					vs := []vfC02Verdict{
+						{fn: "VerifyNameErrorNSEC", accept: VerifyNameErrorNSEC(msg, set) == nil, secure: true, claimed: "nxdomain"},
+						{fn: "VerifyNODATANSEC", accept: VerifyNODATANSEC(msg, set) == nil, secure: true, claimed: "nodata"},
+						{fn: "VerifyDelegationNSEC", accept: VerifyDelegationNSEC(qn, set) == nil, secure: true, claimed: "insecure-delegation"},
+					}
+					if res, err := EvaluateAggressiveNSEC(q, z.Apex, set); err == nil {
+						claim := "nodata"
+						if res.Rcode == dns.RcodeNameError {
+							claim = "nxdomain"
+						}
+						vs = append(vs, vfC02Verdict{fn: "EvaluateAggressiveNSEC", accept: true, secure: true, claimed: claim})
+					}
+					for _, v := range vs {
+						cases++
+						if v.accept {
+							accepted++
+						}
+						if bad := vfC02Judge(z, qn, qt, v, false); bad != "" {
+							t.Fatalf("%s\n  %s\n  chain subset mask %b of %d records", bad, z.Describe(), mask, len(nsec))
+						}
+					}
+				}
+			}
+		}
+		// NSEC3: the full chain and every chain with one record removed
+		for drop := -1; drop < len(nsec3); drop++ {
+			var set []dns.RR
+			for i, r := range nsec3 {
+				if i != drop {
+					set = append(set, dns.Copy(r))
+				}
+			}
+			if len(set) == 0 {
+				continue
+			}
+			for _, qn := range qnames {
+				for _, qt := range []uint16{dns.TypeA, dns.TypeDS} {
+					q := dns.Question{Name: qn, Qtype: qt, Qclass: dns.ClassINET}
+					msg := &dns.Msg{Question: []dns.Question{q}}
+					type call struct {
+						fn, claimed string
+						run         func() (bool, error)
+					}
+					for _, c := range []call{
+						{"VerifyNameErrorForZoneWithWork", "nxdomain", func() (bool, error) { return VerifyNameErrorForZoneWithWork(msg, set, z.Apex, nil) }},
+						{"VerifyNODATAForZoneWithWork", "nodata", func() (bool, error) { return VerifyNODATAForZoneWithWork(msg, set, z.Apex, nil) }},
+						{"VerifyDelegationForZoneWithWork", "insecure-delegation", func() (bool, error) { return false, VerifyDelegationForZoneWithWork(qn, z.Apex, set, nil) }},
+					} {
+						cases++
+						secure, err := c.run()
+						if err != nil {
+							continue
+						}
+						accepted++
+						if bad := vfC02Judge(z, qn, qt, vfC02Verdict{fn: c.fn, accept: true, secure: secure && c.claimed != "insecure-delegation", claimed: c.claimed}, true); bad != "" {
+							t.Fatalf("%s (secure=%v)\n  %s\n  NSEC3 chain without record %d", bad, secure, z.Describe(), drop)
+						}
+					}
+				}
+			}
+		}
+	}
+	build = func(i int, picked []string, assign []string) {
+		if i == len(universe) {
+			z := &vfmodel.Zone{Apex: "example.", Owners: map[string]map[uint16]bool{"example.": {dns.TypeSOA: true, dns.TypeNS: true, dns.TypeDNSKEY: true}}, Glue: map[string]bool{}}
+			for k, o := range picked {
+				owner := o + ".example."
+				types := map[uint16]bool{}
+				switch assign[k] {
+				case "A":
+					types[dns.TypeA] = true
+				case "NS":
+					types[dns.TypeNS] = true
+				case "NS+DS":
+					types[dns.TypeNS], types[dns.TypeDS] = true, true
+				case "DNAME":
+					types[dns.TypeDNAME] = true
+				case "CNAME":
+					types[dns.TypeCNAME] = true
+				}
+				z.Owners[owner] = types
+			}
+			// well-formed zones only: nothing authoritative below a cut or a DNAME, no wildcard delegations / DNAMEs
+			for o, ts := range z.Owners {
+				if strings.HasPrefix(o, "*.") && (ts[dns.TypeNS] || ts[dns.TypeDNAME]) {
+					return
+				}
+				for o2, ts2 := range z.Owners {
+					if o2 != o && o2 != z.Apex && vfmodel.StrictSubdomain(o, o2) && (ts2[dns.TypeNS] || ts2[dns.TypeDNAME]) {
+						return
+					}
+				}
+			}
+			eval(z)
+			return
+		}
+		build(i+1, picked, assign)
+		if len(picked) < 3 {
+			for _, r := range roles {
+				build(i+1, append(append([]string(nil), picked...), universe[i]), append(append([]string(nil), assign...), r))
+			}
+		}
+	}
+	build(0, nil, nil)
+	vfstat.Eval(U, cases)
+	vfstat.ClassN(U, "accepted-verdicts", accepted)
+	vfstat.ClassN(U, "zones", zonesSeen)
+	vfstat.NonTrivial(U, fmt.Sprint("zones", zonesSeen))
+	vfstat.NonTrivial(U, fmt.Sprint("accepted", accepted))
+	vfstat.Sample(U, "summary", map[string]any{"zones_enumerated": zonesSeen, "verifier_calls": cases, "accepted": accepted})
+}
